@@ -1759,10 +1759,24 @@ fn sibling_scopes_program(rng: &mut Rng) -> String {
 /// splits the text into pieces, caps the number of diagnostics across pieces, or switches strategy
 /// above a size only does so on files like these (S72).
 fn bytes_program(rng: &mut Rng) -> String {
-    let target = *rng.pick(&[16usize, 32, 64, 64, 64, 128, 128, 256]) * 1024 * rng.range(90, 125) / 100;
-    let strays = *rng.pick(&[0usize, 0, 3, 12, 25, 25, 60, 200]);
+    // one file in four carries a single special character placed across an equal-split boundary
+    let straddle = rng.chance(1, 4);
+    let kib = if straddle { *rng.pick(&[64usize, 256, 256, 256]) } else { *rng.pick(&[4usize, 8, 16, 32, 64, 64, 64, 128, 128, 256]) };
+    let target = if straddle { kib * 1024 * rng.range(101, 125) / 100 } else { kib * 1024 * rng.range(90, 125) / 100 };
+    let strays = if straddle { 0 } else { *rng.pick(&[0usize, 0, 3, 12, 25, 25, 60, 200]) };
     let defs = rng.range(2, 30);
     let stray_syms = ["$", "@", "~", "`", "^", "§", "€"];
+    // how lines end: plain, CRLF, trailing spaces, a trailing tab, or a mixture by line
+    let ending_style = rng.below(6);
+    let ending = |i: usize| -> &'static str {
+        match ending_style {
+            0 | 1 => "\n",
+            2 => "\r\n",
+            3 => "  \n",
+            4 => "\t\n",
+            _ => ["\n", "  \n", "\r\n", " \t\n"][i % 4],
+        }
+    };
     // about 60 bytes per line
     let lines = target / 60 + 1;
     let stray_every = if strays > 0 { (lines / strays).max(1) } else { usize::MAX };
@@ -1773,21 +1787,47 @@ fn bytes_program(rng: &mut Rng) -> String {
     for i in 0..lines {
         if i % def_every == def_every / 2 && defined < defs {
             if defined == 0 {
-                text.push_str("d0 = 1\n");
+                text.push_str("d0 = 1");
             } else if unbound && defined % 4 == 3 {
-                text.push_str(&format!("d{defined} = d{} + missing{defined}\n", defined - 1));
+                text.push_str(&format!("d{defined} = d{} + missing{defined}", defined - 1));
             } else {
-                text.push_str(&format!("d{defined} = d{} + {i}\n", defined - 1));
+                text.push_str(&format!("d{defined} = d{} + {i}", defined - 1));
             }
+            text.push_str(ending(i));
             defined += 1;
         } else if stray_every != usize::MAX && i % stray_every == stray_every / 3 {
             let sym = stray_syms[(i / stray_every) % stray_syms.len()];
-            text.push_str(&format!("# line {i:06} has a stray symbol after this comment\n{sym}\n"));
+            text.push_str(&format!("# line {i:06} has a stray symbol after this comment{}{sym}{}", ending(i), ending(i + 1)));
         } else {
-            text.push_str(&format!("# line {i:06} ---------------------------------------------\n"));
+            text.push_str(&format!("# line {i:06} ---------------------------------------------{}", ending(i)));
         }
     }
     text.push_str(&format!("d{}\n", defined.saturating_sub(1)));
+    if straddle {
+        // Exactly one special three-byte character (a bidirectional control, a zero-width
+        // joiner, a byte-order mark, a line separator ...) inside a comment, its bytes lying
+        // across offset ceil(len / n) * k for some n in 2..=8: code that cuts the text into n equal
+        // pieces (n from the processor count, say) sees it whole for some n and cut for others.
+        let specials = ["\u{202e}", "\u{2066}", "\u{202a}", "\u{200d}", "\u{feff}", "\u{2028}", "\u{2069}", "\u{20ac}"];
+        let special = *rng.pick(&specials);
+        let len = text.len();
+        let mut bytes = text.into_bytes();
+        for _ in 0..40 {
+            let n = rng.range(2, 8);
+            let k = rng.range(1, n - 1);
+            let boundary = len.div_ceil(n) * k;
+            let start = boundary - rng.range(1, 2);
+            if start + 3 >= len || start < 4 {
+                continue;
+            }
+            // the three bytes replaced must be plain dashes of a comment line
+            if bytes[start..start + 3].iter().all(|&c| c == b'-') {
+                bytes[start..start + 3].copy_from_slice(special.as_bytes());
+                break;
+            }
+        }
+        text = String::from_utf8(bytes).unwrap_or_default();
+    }
     text
 }
 
@@ -1843,7 +1883,7 @@ fn generate_base(rng: &mut Rng, corpus: &[String]) -> Case {
     match family {
         0..=19 => Case { family: "W2-clusters", source: cluster_program(rng) },
         20 => Case { family: "W13-scale", source: scale_program(rng) },
-        21 => Case { family: "W13-scale", source: if rng.chance(1, 2) { bytes_program(rng) } else { scale_program(rng) } },
+        21 => Case { family: "W13-scale", source: bytes_program(rng) },
         22..=33 => {
             let n = rng.range(2, 5);
             Case { family: "W3-multi-fault", source: typed_program(rng, n, false) }
